@@ -16,6 +16,12 @@ serialization of terminal operations in `Tea/VT/Ops.lean`. They hold for EVERY
 renderer state (every width, height, cache, screen mode). Byte counts are
 `(serializeAll ops).length`; the decimal arguments of the two cursor movements that
 frame a flush appear as the opaque terms `(Dec.digits k).length`.
+Styled text: the bounds count BYTES WRITTEN, so a line enters them with its raw length
+`l.length`, escape sequences (SGR styling) included — not with the cells it takes
+(`lineWidth l`, which is smaller for a styled line).  A line wider than the terminal is cut
+(`truncateLine`: every escape sequence is kept, printing bytes beyond the width are
+dropped), which never makes it longer in bytes (`truncateLine_length_le`), so `l.length`
+bounds what is written for it in every case.
 Only definitions used in statements and property theorems live here; helper lemmas are in
 `Tea/Proofs/RenderBytes.lean`.
 -/
@@ -207,8 +213,9 @@ theorem C19_unchanged_bytes (r : RState) (sh : Bool) (n i : Nat) (l : Line)
 
 /-! ### 5. a painted line -/
 
-/-- Whatever the flags, one line costs at most its length plus nine bytes: the content
-(truncated to the width or not), plus at most CR, erase-below (3 bytes), erase-to-end-of-line
+/-- Whatever the flags, one line costs at most its length IN BYTES (escape sequences included)
+plus nine bytes: the content (truncated to the width — which drops printing bytes only and keeps
+every escape sequence — or not), plus at most CR, erase-below (3 bytes), erase-to-end-of-line
 (3 bytes), CR LF. -/
 theorem C19_changed_line_bound (r : RState) (flushQ shrinking : Bool) (n i : Nat) (l : Line) :
     (serializeAll (paintLineOps r flushQ shrinking n i l)).length ≤ l.length + 9 :=
@@ -339,6 +346,17 @@ example : (flush (write r0 [97,97,97,10,98,98,98])).2 =
 /-- the first frame (no cache) paints everything -/
 example : (flush (write { width := 20, height := 10 } [97,10,98])).2 =
     [.cr, .text [97], .el0, .cr, .lf, .text [98], .el0, .cub 20] := by decide
+
+/-- a styled line ("\x1b[1mabcdefgh\x1b[0m": 16 bytes, 8 cells) on a 5-column renderer: it is cut to
+5 cells, both escape sequences are still written (13 bytes of text, no EL0: the row is full), and
+the bound of `C19_changed_line_bound` is in raw bytes: the line costs 13 + 1 bytes, bound 16 + 9 -/
+example :
+    (flush (write { width := 5, height := 10 } [27,91,49,109,97,98,99,100,101,102,103,104,27,91,48,109])).2 =
+      [.cr, .text [27,91,49,109,97,98,99,100,101,27,91,48,109], .cub 5] ∧
+    lineWidth [27,91,49,109,97,98,99,100,101,102,103,104,27,91,48,109] = 8 ∧
+    lineWidth (truncateLine 5 [27,91,49,109,97,98,99,100,101,102,103,104,27,91,48,109]) = 5 ∧
+    (serializeAll (paintLineOps { width := 5, height := 10 } false false 1 0
+      [27,91,49,109,97,98,99,100,101,102,103,104,27,91,48,109])).length = 14 := by decide
 
 example : clampFPS 0 = 60 ∧ clampFPS 30 = 30 ∧ clampFPS 1000 = 120 ∧ clampFPS (-5) = 60 := by decide
 example : framerateNs 60 = 16666666 ∧ framerateNs 120 = 8333333 ∧ framerateNs 1 = 1000000000 := by decide
